@@ -128,8 +128,9 @@ Definition used_cells (X : list Z) (r : Q) : result buffer :=
 
 (* ---- the rows the property says are used -------------------------------------------------------------- *)
 Definition sampled_indices (X : list Z) (r : Q) : list nat :=
-  if quota X r =? 0 then seq 0 (length X)
-  else concat (map (fun v => firstn (quota X r) (where_eq X v)) (f_values X)).
+  let q := quota X r in            (* let-bound: evaluated once, not once per value *)
+  if q =? 0 then seq 0 (length X)
+  else concat (map (fun v => firstn q (where_eq X v)) (f_values X)).
 Definition rows (A : list Z) (idx : list nat) : list Z := map (fun i => nth i A 0%Z) idx.
 
 (* ---- compute_entropies: exact integer term structure --------------------------------------------------- *)
